@@ -17,6 +17,7 @@ RULE = (
     "function (CALL); the report is read from the exception's attributes AND parsed from its message, and judged by an independent oracle "
     "(first-occurrence bindings before the reported axis, reference evaluation of that axis' expression). non-trivial = distinct rejected line"
 )
+RULE += " Also: rejections of 500- / 4000-element tuple hints with warnings turned into errors (threshold of the tree under test)."
 
 
 def cases(tier, rng, run):
